@@ -82,6 +82,8 @@ def _step(draw):
         "k_mode": draw(sampled_from(["draw", "draw", "max", "max-1", "one"])),
         "radius_deg": draw(sampled_from([0.0, 1.0, 30.0, 180.0]) | st.floats(0.0, 120.0)),
         "return_distance": draw(sampled_from([True, True, False])),
+        # arguments equal to their documented defaults (k=1, in_radians=False, return_distance=True / False) are left out
+        "omit_defaults": draw(st.booleans()),
         # the element kind is switched through the tree object's own public setter after the tree was obtained
         "via_setter": draw(sampled_from([None, None, None] + KINDS)),
     }
@@ -251,10 +253,15 @@ def run_case(case, ctx):
             km = st_.get("k_mode", "draw")
             k = n if km == "max" else (max(1, n - 1) if km == "max-1" else (1 if km == "one" else k))
             ctx.ev("knn_matches_bruteforce")
+            ckw = dict(kw, k=k, return_distance=bool(st_["return_distance"]))
+            if st_.get("omit_defaults"):
+                full = dict(ckw)
+                ckw = {a: v for a, v in full.items() if v != {"k": 1, "return_distance": True, "in_radians": False}[a]}
+                ctx.label("knn-defaults-omitted:" + ",".join(sorted(set(full) - set(ckw))))
             if st_["return_distance"]:
-                d, ind = tree.query(arg, k=k, return_distance=True, **kw)
+                d, ind = tree.query(arg, **ckw)
             else:
-                d, ind = None, tree.query(arg, k=k, return_distance=False, **kw)
+                d, ind = None, tree.query(arg, **ckw)
             ind = np.asarray(ind)
             if ind.dtype != INT_DTYPE:
                 bad("knn_matches_bruteforce", "index-dtype", f"{ind.dtype}")
@@ -305,10 +312,13 @@ def run_case(case, ctx):
                 r = r_deg  # documented: degrees
                 r_cmp = math.radians(r_deg)
             ctx.ev("radius_matches_bruteforce")
+            rkw = dict(kw, r=r, return_distance=bool(st_["return_distance"]))
+            if st_.get("omit_defaults"):
+                rkw = {a: v for a, v in rkw.items() if a == "r" or v != {"return_distance": False, "in_radians": False}[a]}
             if st_["return_distance"]:
-                d, ind = tree.query_radius(arg, r=r, return_distance=True, **kw)
+                d, ind = tree.query_radius(arg, **rkw)
             else:
-                d, ind = None, tree.query_radius(arg, r=r, return_distance=False, **kw)
+                d, ind = None, tree.query_radius(arg, **rkw)
             if single:
                 ind_l = [np.asarray(ind).ravel()]
                 d_l = [np.asarray(d, float).ravel()] if d is not None else None
